@@ -408,6 +408,19 @@ def w_tls12_fragmented_certificate():
     return expect_plain(impl, tlsgen, s)
 
 
+def w_tls_handshake_header_cut():
+    impl, tlsgen, *_ = env()
+    c = json.load(open("/verif/findings/C01-handshake-header-cut.capture.json"))
+    st, out = impl.run(bytes.fromhex(c["capture"]), c["keylog"], [])
+    if st != "ok":
+        return "FAILS " + st
+    ok, r = tlsgen.exported_streams(out)
+    cv = r[1] if ok else []
+    got = (cv[0]["c"].hex(), cv[0]["s"].hex()) if cv else ("", "")
+    want = (c["client_plaintext"], c["server_plaintext"])
+    return "ok exported streams equal the plaintext" if got == want else "FAILS exported (%d, %d) bytes, sent (%d, %d)" % (len(got[0]) // 2, len(got[1]) // 2, len(want[0]) // 2, len(want[1]) // 2)
+
+
 def w_short_cid_direction():
     impl, *_ = env()
     from ref import readback
@@ -465,6 +478,7 @@ W = {  # name: (property, commit, tag, function, one-line description)
     "quic-hello-again-after-key-updates": ("C03", "2cf39e4", "quic-decryptor-selection-outside-try", w_hello_again_after_key_updates, "one crafted Initial datagram with a second ServerHello after two key updates: the re-created Application decryptor list was indexed with the stale key epoch and the IndexError aborted the run"),
     "tls13-fragmented-flight": ("C01", "1e9feed", "tls13-handshake-fragmented", w_tls13_fragmented_flight, "TLS 1.3 server flight fragmented across records inside a message (RFC 8446 5.1): the Finished was not recognised, the server direction never switched to its application keys and its application data was lost"),
     "tls12-fragmented-certificate": ("C01", "101e670", "handshake-continuation-as-hello", w_tls12_fragmented_certificate, "TLS <= 1.2 Certificate fragmented across records (RFC 5246 6.2.1) with a continuation record starting with 0x01 or 0x02: taken for a ClientHello / ServerHello, session reset, nothing exported"),
+    "tls-handshake-header-cut": ("C01", "d053156", "handshake-header-cut", w_tls_handshake_header_cut, "TLS 1.0 Certificate whose 4-byte message header is cut by a record boundary after 2 bytes: the next record started with 0x02 and was taken for a ServerHello, nothing exported"),
     "legacy-nanosecond-pcap": ("C12", "7467fb4", "legacy-ns", w_legacy_nano, "legacy pcap with nanosecond magic: TypeError in the writer"),
 }
 
